@@ -23,7 +23,7 @@ RULE = (
     "d=3: every pair/triple of fields over the product of their 8-value edge alphabets, crossed with timestamp lengths; "
     "full product of the 4-value alphabets {0, max, 0x55.., 0xAA..} of all eight fields (65 536); the service-17 wrapper "
     "over the 4-value product of its six fields x timestamp lengths x 3 source data, plus d=1 walks. Each case runs "
-    "construct/pack/unpack(ts_len)/re-pack/compare against ref/pus.py; generic space-packet view and check_pus_crc on every "
+    "construct/pack/unpack(ts_len)/re-pack/compare against ref/pus.py (and PusTm.service_from_bytes on the octets); generic space-packet view and check_pus_crc on every "
     "vector (thorough) or a covering subset (quick, see bounds). Range clause: service, subservice, message counter in "
     "[-N,-1] U [max+1,max+N] and +-2^k must not be encoded. Rejection clause: timestamp length T in {0,1,2,7} x every "
     "declared total length 7 <= P < 15+T x every APID x sequence-count alphabet x 3 continuations (none, a following valid "
@@ -315,6 +315,14 @@ def _tm_script(rec: Rec, case, f, ts_spec, data_spec, nontrivial, routes, deep, 
     off = m.PUS_TM_TIMESTAMP_OFFSET
     if off != RP.TM_TIMESTAMP_OFFSET or raw[off:off + T] != ts:
         bad("offset/PUS_TM_TIMESTAMP_OFFSET", off, RP.TM_TIMESTAMP_OFFSET)
+    # the helper that reads the service octet of packed telemetry (used to pick the decoder): octet 7 of the layout the property
+    # fixes, for every telemetry packet whatever its other fields
+    try:
+        got_svc = m.PusTm.service_from_bytes(bytearray(ref))
+        if got_svc != svc:
+            bad("helper/PusTm.service_from_bytes/wrong-service", got_svc, svc)
+    except Exception as e:
+        bad("helper/PusTm.service_from_bytes/exception/" + type(e).__name__, repr(e), svc)
     if deep:
         from spacepackets.ecss import check_pus_crc
 
